@@ -4412,3 +4412,182 @@ def o_c19_language_subclass(ctx):
 
 
 P.PROPS["C19"]["streams"].append(o_c19_language_subclass)
+
+
+# ---------------------------------------------------------------- round 17: corners of the input space
+def _all_step_keywords(d):
+    out = []
+    for role in ("given", "when", "then", "and", "but"):
+        out += [k for k in d[role] if k not in out]
+    return out
+
+
+def c05_keyword_corners(ctx):
+    """(a) a short step keyword followed, in the same document, by the longer keywords it prefixes, and the other way
+    round, for every such pair of every dialect; (b) the bullet '* ' in the dialects that do not list it (a step where
+    it is listed, free text or an unexpected line where it is not), as a step and inside descriptions; (c) keywords
+    re-spelled with the other apostrophe (U+2019 for ' and back) are not keywords; (d) a language header that selects
+    another dialect leaves no English keyword behind: English title and step lines are plain text there"""
+    D = S.dialects()
+    srcs = []
+    for code in sorted(D):
+        d = D[code]
+        head = "# language: %s\n%s: f\n" % (code, d["feature"][0])
+        steps = _all_step_keywords(d)
+        pairs = [(a, b) for a in steps for b in steps if a != b and b.startswith(a)]
+        if pairs:
+            body = "".join("    %sshort %d\n    %slong %d\n    %sshort again\n" % (a, i, b, i, a) for i, (a, b) in enumerate(pairs))
+            srcs.append(head + "  %s: s\n%s" % (d["scenario"][0], body))
+            srcs.append(head + "  %s: b\n%s  %s: s\n    %sx\n" % (d["background"][0], body, d["scenario"][0], pairs[0][1]))
+        if "* " not in steps or code in ("en", "fr"):
+            srcs.append(head + "  %s: b\n    * in a background description\n    %sx\n  %s: s\n    * in a scenario description\n    %sy\n    * after a step\n" % (d["background"][0], steps[0], d["scenario"][0], steps[0]))
+            srcs.append(head + "\n  * in the feature description\n  %s: s\n    * first of the scenario\n    %s z\n" % (d["scenario"][0], steps[-1].strip() or steps[-1]))
+        for role in S.ROLES:
+            for k in d[role]:
+                if "'" in k or "\u2019" in k:
+                    other = k.replace("'", "\x00").replace("\u2019", "'").replace("\x00", "\u2019")
+                    line = (other + ": t") if role in S.TITLE_ROLES else (other + "t")
+                    srcs.append(head + "  %s: s\n    %sx\n    %s\n" % (d["scenario"][0], steps[0], line))
+                    srcs.append(head + "  %s\n  %s: s\n    %sx\n" % (line, d["scenario"][0], steps[0]))
+        if code != "en" and not code.startswith("en-"):
+            srcs.append(head + "  %s: s\n    %sx\n  Scenario: english\n    Given y\n" % (d["scenario"][0], steps[0]))
+            srcs.append(head + "  free text\n  Scenario Outline: english in a description\n  Example: e\n  %s: s\n    %sx\n  @t\n  Scenario Template: after a tag\n" % (d["scenario"][0], steps[0]))
+            srcs.append(head + "  Background: english\n  Rule: english\n  %s: s\n    %sx\n    Examples:\n" % (d["scenario"][0], steps[0]))
+    return e2e("keyword-corners", srcs, P.p_whole, modes=(False, True), nontrivial=lambda q, x: q[1][2][:60], exhaustive=True)
+
+
+for _pid in ("C05", "C02", "C03", "C10", "C14"):
+    P.PROPS[_pid]["streams"].append(c05_keyword_corners)
+
+
+def c14_language_spellings(ctx):
+    """a language header names a dialect by its exact code: every code of the table re-spelled with '_' for '-', in other
+    letter cases, with a prefix or suffix, is an unknown dialect, reported at the header"""
+    D = S.dialects()
+    srcs = []
+    for code in sorted(D):
+        vs = {code.replace("-", "_"), code.upper(), code.lower() if code != code.lower() else code.title(), code + "-", "-" + code, code + "_x", code.replace("-", "")} - {code}
+        if "-" not in code:
+            vs = {code.upper(), code + "_", code + "-" + code}
+        for v in sorted(vs):
+            if v in D:
+                continue
+            srcs.append("# language: %s\n%s: f\n" % (v, D[code]["feature"][0]))
+    srcs += ["  #language:%s\nFeature: f\n" % c.replace("-", "_") for c in sorted(D) if "-" in c]
+    return e2e("language-code-spellings", srcs, P.p_whole, modes=(False, True), nontrivial=nt_rejected, exhaustive=True)
+
+
+for _pid in ("C14", "C05"):
+    P.PROPS[_pid]["streams"].append(c14_language_spellings)
+
+
+def c09_header_corners(ctx):
+    """placeholders are the header cells, literally, whatever they contain: an empty header cell (the placeholder '<>'), a
+    header that is a regular-expression repeat ('x{2}', '{1}', 'a{1,2}', 'a{2,1}'), classes, groups, anchors, an escaped
+    pipe, an escaped line feed (a placeholder spanning two lines of a doc string), headers whose joined names coincide
+    ('a|b','c' and 'a','b|c'), and the texts those patterns would match if they were patterns"""
+    heads = ["", "x{2}", "{1}", "a{1,2}", "a{2,1}", "[ab]", "(a)", "a|b", "^a", "a$", ".", "\\d", "a\\nb", "<a>", "a>", "<"]
+    srcs = []
+    for h in heads:
+        cell = h.replace("|", "\\|")
+        ph = "<%s>" % h.replace("\\n", "\n      ")
+        plain = ["<xx>", "<>", "<a>", "<aa>", "<b>", "<a", "<1>", "<.>", "<x>"]
+        name_ph = "<%s>" % h if "\\n" not in h else "<a>"
+        srcs.append("Feature: f\n  Scenario Outline: only %s here\n    Given s %s and %s\n      | %s | %s |\n    And d\n      \"\"\"%s\n      %s\n      %s\n      \"\"\"\n    Examples:\n      | %s | other |\n      | V1 | o |\n      |  | <%s> |\n"
+                    % (name_ph, name_ph, " ".join(plain), ("<%s>" % h).replace("|", "\\|"), " ".join(plain).replace("|", "\\|"), name_ph if "\\" not in h else "", ph, " ".join(plain), cell, h.replace("|", "\\|")))
+    srcs.append("Feature: f\n  Scenario Outline: o <a|b> <c> <a> <b|c>\n    Given <a|b>-<c>-<a>-<b|c>\n    Examples:\n      | a\\|b | c |\n      | 1 | 2 |\n    Examples:\n      | a | b\\|c |\n      | 3 | 4 |\n  Scenario Outline: p <> <|>\n    Given <>-<|>\n    Examples:\n      |  |  |\n      | 5 | 6 |\n    Examples:\n      | \\| |\n      | 7 |\n")
+    srcs.append("Feature: f\n  Scenario Outline: total <> items\n    Given <> and <>\n    Examples:\n      |   | qty |\n      | two | 2 |\n")
+    reqs = [("events", [False, False, True, False, [["u.feature", s]]]) for s in srcs]
+
+    def pr(r_, req=None):
+        if "envelopes" not in r_:
+            return {"outcome": P.outcome(r_)}
+        return [pk_interp(e["pickle"]) if "pickle" in e else e for e in r_["envelopes"]]
+    return differential("header-corners", reqs, proj=pr, nontrivial=lambda q, x: canon(q[1])[:100], classify=lambda q, x: "doc", exhaustive=True)
+
+
+for _pid in ("C09", "C06", "C15"):
+    P.PROPS[_pid]["streams"].append(c09_header_corners)
+
+
+def c13_delimiter_corners(ctx):
+    """doc strings at their edges: an opening line of four and more delimiter characters (the media type begins with the
+    delimiter's own character); a backslash directly before an escaped delimiter; the escaped form of the other delimiter
+    (content, not an escape); a closing delimiter indented deeper or less than the opening one; a media type that is only
+    a placeholder whose value is empty"""
+    srcs = []
+    for d, o in (('"""', "```"), ("```", '"""')):
+        c = d[0]
+        esc = "\\" + "\\".join(d)
+        oesc = "\\" + "\\".join(o)
+        for opening in (d + c, d + c + "quoted" + c, d + c * 3, d + " " + c, d + o, d + c + " x"):
+            srcs.append("Feature: f\n  Scenario: s\n    Given g\n      %s\n      body\n      %s\n    And h\n" % (opening, d))
+        for line in ("\\" + esc, "C:\\dir\\" + esc, esc + "\\", "\\\\" + esc, oesc, "\\" + oesc, esc + oesc, "x" + esc + esc):
+            srcs.append("Feature: f\n  Background:\n    Given g\n      %s\n      %s\n      %s\n  Scenario Outline: o\n    Given <a>\n      %s\n      %s\n      %s\n    Examples:\n      | a |\n      | 1 |\n" % (d, line, d, d, line, d))
+        for closer_ind in ("        ", "    ", "", "\t      ", "       "):
+            srcs.append("Feature: f\n  Scenario: s\n    Given g\n      %s\n      body\n%s%s\n    And after\n  @t\n  # c\n\n  Scenario: next\n    Given x\n" % (d, closer_ind, d))
+    ast = e2e("delimiter-corners", srcs, P.p_whole, modes=(False, True), nontrivial=lambda q, x: q[1][2][:80], exhaustive=True)
+    media = ["Feature: f\n  Scenario Outline: o\n    Given g\n      \"\"\"<type>\n      body <type>\n      \"\"\"\n    And h\n      ```<type><type>\n      ```\n    Examples:\n      | type |\n      |  |\n      | json |\n      | <type> |\n"]
+    reqs = [("events", [ps, pa, True, False, [["u.feature", s]]]) for s in media + srcs[:12] for ps, pa in ((False, False), (True, True))]
+    ev = differential("delimiter-corners-envelopes", reqs, nontrivial=lambda q, x: canon(q[1])[:100], classify=lambda q, x: "doc", exhaustive=True)
+    ast.evaluations += ev.evaluations
+    ast.disagreements += ev.disagreements
+    ast.nontrivial |= ev.nontrivial
+    return ast
+
+
+for _pid in ("C13", "C03", "C07", "C17", "C18"):
+    P.PROPS[_pid]["streams"].append(c13_delimiter_corners)
+P.PROPS["C07"]["streams"].append(c13_shared_lines)
+P.PROPS["C17"]["streams"].append(c01_error_line_characters)
+P.PROPS["C01"]["streams"].append(c12_ragged)
+
+
+def c11_coincidences(ctx):
+    """numbers that coincide when written next to each other: a tag at line 1, column 11 and one at line 11, column 1 (and
+    the like: every column 1..25 on a first line against every column 1..3 ten and twenty lines further down, in one tag
+    run); examples blocks whose tag ids, written one after the other, spell the id of another block's tag (two tags then
+    one tag, with 0..60 rows in between)"""
+    srcs = []
+    for k in range(0, 25):
+        for later in (10, 20):
+            for col2 in (0, 1, 2):
+                srcs.append(" " * k + "@first @second\n" + "# filler\n" * (later - 1) + " " * col2 + "@third\n" + "Feature: f\n  Scenario: s\n    Given g\n")
+    for r1 in (0, 1, 2, 3):
+        for r2 in range(0, 61, 1 if r1 == 1 else 7):
+            srcs.append("Feature: f\n  Scenario Outline: o\n    Given <a>\n    @t1 @t2\n    Examples:\n      | a |\n" + "      | x |\n" * r1 + "    @t3\n    Examples:\n      | a |\n" + "      | y |\n" * r2 + "    @t4 @t5\n    Examples:\n      | a |\n      | z |\n")
+    reqs = [("events", [False, True, True, False, [["u.feature", s]]]) for s in srcs]
+    return differential("coincidences", reqs, nontrivial=lambda q, x: canon(q[1])[:100], classify=lambda q, x: "doc", exhaustive=True)
+
+
+for _pid in ("C11", "C08", "C04"):
+    P.PROPS[_pid]["streams"].append(c11_coincidences)
+
+
+def o_huge_runs(ctx):
+    """a look-ahead over more than 65 536 (and 131 072) tag, comment and blank lines drops nothing: every tag and every
+    comment is in the AST, at its own line (implementation only: too slow for the model)"""
+    impl = impl_mod()
+
+    def check(n):
+        run = "".join(("  @t%d\n" % i) if i % 3 == 0 else ("  # c%d\n" % i if i % 3 == 1 else "\n") for i in range(n))
+        for tail, pick in (("  Examples:\n    | a |\n    | 1 |\n", lambda f: f["children"][0]["scenario"]["examples"][0]["tags"]),
+                           ("  Scenario: t\n    Given h\n", lambda f: f["children"][1]["scenario"]["tags"])):
+            src = "Feature: f\n  Scenario Outline: s\n    Given <a>\n  @first\n" + run + tail
+            r = impl.parse(False, "en", src)
+            if "ok" not in r:
+                return {"what": "a well-formed document with a tag run of %d lines is rejected" % n, "result": canon(r)[:300]}
+            tags = pick(r["ok"]["feature"])
+            want_tags = ["@first"] + ["@t%d" % i for i in range(0, n, 3)]
+            if [t["name"] for t in tags] != want_tags or [t["location"]["line"] for t in tags] != [4] + [5 + i for i in range(0, n, 3)]:
+                return {"what": "tags of a run of %d lines are missing from the AST or at other lines (%d of %d)" % (n, len(tags), len(want_tags))}
+            if [c["location"]["line"] for c in r["ok"]["comments"]] != [5 + i for i in range(1, n, 3)]:
+                return {"what": "comments of a run of %d lines are missing from the AST (%d of %d)" % (n, len(r["ok"]["comments"]), len(range(1, n, 3)))}
+        return None
+    return oracle("huge-look-ahead-runs", [66000, 140000] if S.n_for(0, 1) == 0 else [66000, 140000, 300000], check, describe=lambda n: "%d lines" % n)
+
+
+for _pid in ("C18", "C03", "C16"):
+    P.PROPS[_pid]["streams"].append(o_huge_runs)
+for _pid in ("C16", "C03"):
+    P.PROPS[_pid]["streams"].append(o_c13_docstrings_in_context)
